@@ -35,15 +35,16 @@ the same change independently (C02/C03, C06/C07, C08/C11).
 for n,p,needs,c in rows:
     new+=f"| {n} | {p} | {needs.replace('|','/')} | {c} |\\n".replace('\\n','\n')
 new+='''
-All 142 are caught now on every run - 138 by the quick tier of the property they were made for,
+All 152 are caught now on every run - 148 by the quick tier of the property they were made for,
 four by the check of a sibling property (R9-C08, an ordering-only change filed under C08, by C09;
 R10-C10 and R12-C02, the same pattern-layer change filed under C10 and C02, by C15; R13-C06, the
 join-and-cancel change of R4-C18 filed under C06, by C18 - through the front end it needs
 thousands of matches and a cancel inside the parallel sort, which the scheduler scenarios do not
 reach).
-**Forty-five were missed when first confirmed** (eleven of rounds 1-2, seven of round 3, two of
+**Forty-eight were missed when first confirmed** (eleven of rounds 1-2, seven of round 3, two of
 round 4, four of round 5, one of round 6, five of round 7, one of round 8, six of round 9, one of
-round 10, four of round 11, one of round 12, two of round 13) and led to strengthening:
+round 10, four of round 11, one of round 12, two of round 13, three of round 14) and led to
+strengthening:
 
 * *C01-no-fold-after-normalize* (only U+0130 is affected) and *R2-C14-std-is-uppercase* (final
   sigma, long s, micro sign, title-case digraphs): hand-picked alphabets cannot anticipate which
@@ -167,6 +168,12 @@ round 10, four of round 11, one of round 12, two of round 13) and led to strengt
 * Round 13: *R13-C11-snapshot-releases-old-vector-at-spawn* (an item the snapshot lists as a
   match must not be destroyed), *R13-C13-extend-notify-guard-dropped-early* (a C13 script whose
   injector thread uses the batch call).
+* Round 14: *R14-C14-escape-branch-keeps-cluster-tail* (cluster family: every constructor must
+  treat a text like its reduction to the first code point of every extended grapheme cluster;
+  the first version of this oracle compared atoms structurally and reduced texts that cluster
+  again - both corrected before commit), *R14-C06-placeholder-compare-merged* (family **NG**,
+  negated-only patterns), *R14-C13-update-config-cancels-without-respawn* (`update_config`
+  entered the alphabet of one C13 script; its blocking lock got a hook point).
 * Confirming *C13-no-retry-for-zero-timeout* exposed a harness bug (a parked thread of a
   deadlocked execution kept a global lock; the next execution stalled and the run ended as a
   machinery failure instead of a verdict) - fixed by a pool of reference matchers.
